@@ -474,6 +474,16 @@ pub struct InterleavedOutcome {
 }
 
 pub fn exec_interleaved(w: &Workload, cfg: SchedCfg, sched: Tape, n_streams: usize, event_cap: u64) -> InterleavedOutcome {
+    let ws: Vec<&Workload> = (0..n_streams).map(|_| w).collect();
+    exec_interleaved_multi(&ws, cfg, sched, event_cap)
+}
+
+/// Like `exec_interleaved`, but stream i runs workload `ws[i]` (different compiled queries over
+/// the same world on one shared adapter). The adapter's per-query monitors (C21 expectations)
+/// belong to `ws[0]` only, so callers must not read monitor violations when the queries differ.
+pub fn exec_interleaved_multi(ws: &[&Workload], cfg: SchedCfg, sched: Tape, event_cap: u64) -> InterleavedOutcome {
+    let n_streams = ws.len();
+    let w = ws[0];
     let sim = make_sim(w, cfg, sched, false, event_cap);
     let adapter = Arc::new(SimAdapter::new(sim.clone()));
     let mut streams: Vec<Vec<Row>> = vec![vec![]; n_streams];
@@ -482,8 +492,8 @@ pub fn exec_interleaved(w: &Workload, cfg: SchedCfg, sched: Tape, n_streams: usi
     take_panic();
     let result = catch_unwind(AssertUnwindSafe(|| {
         let mut its = vec![];
-        for _ in 0..n_streams {
-            match interpret_ir(adapter.clone(), w.compiled.clone(), w.args_arc.clone()) {
+        for wi in ws.iter() {
+            match interpret_ir(adapter.clone(), wi.compiled.clone(), wi.args_arc.clone()) {
                 Ok(it) => its.push(Some(it)),
                 Err(e) => return Err(format!("{e}")),
             }
